@@ -28,19 +28,25 @@ for _nk in (2, 3, 4):
 
 
 # ---- C18.b AnamHermite bound / extrapolation branches, expansion = strictly increasing uninterpreted function
-def _mono_opts(symex, z3):
+def _mono_opts_at(anchors=()):
     """sinh stands for the Hermite expansion: an uninterpreted function with strict monotonicity instantiated on
-    every pair of application terms present (nothing else is assumed about it)."""
-    apps = []
+    every pair of application terms present (nothing else is assumed about it).  Applications on concrete arguments
+    are evaluated by libm_exact (the native value) and never reach the solver; 'anchors' lists the concrete arguments the
+    harness uses (the fixed practical bounds), so that symbolic applications are ordered against those values too."""
+    def opts(symex, z3):
+        import math
+        from fractions import Fraction
+        apps = [(z3.RealVal(Fraction(c)), z3.RealVal(Fraction(math.sinh(c)))) for c in anchors]
 
-    def axioms(f, args, app):
-        x = args[0]
-        ax = []
-        for y, fy in apps:
-            ax += [z3.Implies(x < y, app < fy), z3.Implies(x > y, app > fy)]
-        apps.append((x, app))
-        return ax
-    return {'libm_axioms': {'sinh': axioms}}
+        def axioms(f, args, app):
+            x = args[0]
+            ax = []
+            for y, fy in apps:
+                ax += [z3.Implies(x < y, app < fy), z3.Implies(x > y, app > fy), z3.Implies(x == y, app == fy)]
+            apps.append((x, app))
+            return ax
+        return {'libm_axioms': {'sinh': axioms}}
+    return opts
 
 
 def _sinh_native(x):
@@ -54,19 +60,55 @@ def _sinh_native(x):
 
 for _ent, _id, _what in (
         ('k_raw', 'raw', 'transformToRawValue: inside [az.min, az.max]; non-decreasing over all y (two free points, across every zone boundary); the expansion itself when _flagBound is off'),
-        ('k_gauss', 'gauss', 'rawToTransformValue outside the practical interval (constant and linear branches): inside [ay.min, ay.max]; non-decreasing (two free points); transformToRaw(rawToTransform(z)) == z clamped to the absolute interval'),
+        ('k_gauss', 'gauss', 'rawToTransformValue outside the practical interval (constant and linear branches): inside [ay.min, ay.max]; non-decreasing (two free points)'),
+        ('k_rt_z', 'rtz', 'z outside the practical interval: transformToRaw(rawToTransform(z)) == z clamped to the absolute interval'),
         ('k_lin_y', 'liny', 'y outside the practical interval: transformToRaw(y) inside the absolute interval; rawToTransform(transformToRaw(y)) == y clamped to the absolute interval')):
-    K('C18.b.' + _id, property='C18', engine='symex', harness='C18/hermite_bounds.cpp', entry=_ent,
-      tus=['src/Anamorphosis/AnamHermite.cpp', 'src/Basic/Interval.cpp', 'src/Basic/Utilities.cpp'],
-      symex_opts=_mono_opts,
-      # branch_timeout_ms: the branch into the bisection loop is infeasible for the stated inputs; a feasibility query that times out
-      # (busy machine) would send the engine into 10^6 iterations, so it gets time, and max_steps turns such a run into an error
-      symex={'libm_exact': {'sinh': _sinh_native}, 'branch_timeout_ms': 30000, 'max_steps': 300000},
-      bounds={'quick': 'arbitrary real bounds ay.min < py.min <= py.max < ay.max (|.| <= 1e6), pz = H(py) at both ends, az.min < pz.min, pz.max < az.max, gaps absolute/practical >= 2^-20; all 2^8 inclusion flags; H an arbitrary strictly increasing function; free real query points'},
+    for _mx, _tiers in ((1, ('quick', 'thorough')),):   # _mx = 0 (VF_MAXINC off: the four "max included" flags false) was only needed on a busy machine
+        K('C18.b.' + _id, property='C18', engine='symex', harness='C18/hermite_bounds.cpp', entry=_ent,
+          tus=['src/Anamorphosis/AnamHermite.cpp', 'src/Basic/Interval.cpp', 'src/Basic/Utilities.cpp'],
+          defines={'all': dict({'VF_MAXINC': 1} if _mx else {}, **({} if _id == 'raw' else {'VF_YFIX': 1, 'VF_AYMIN': '-4.', 'VF_PYMIN': '-2.5', 'VF_PYMAX': '3.', 'VF_AYMAX': '4.5'}))}, tiers=_tiers,
+          symex_opts=_mono_opts_at(() if _id == 'raw' else (-2.5, 3.)),
+          # branch_timeout_ms: the branch into the bisection loop is infeasible for the stated inputs; a feasibility query that times out
+          # (busy machine) would send the engine into 10^6 iterations, so it gets time, and max_steps turns such a run into an error
+          symex={'libm_exact': {'sinh': _sinh_native}, 'branch_timeout_ms': 30000, 'max_steps': 300000},
+          bounds={'quick': ('arbitrary real bounds ay.min < py.min <= py.max < ay.max (|.| <= 1e6)' if _id == 'raw' else 'Gaussian-side bounds fixed: ay = [-4, 4.5], py = [-2.5, 3]') + ', pz = H(py) at both ends, az.min < pz.min, pz.max < az.max, gaps absolute/practical >= 2^-20; the four "min included" flags arbitrary, "max included" %s; H an arbitrary strictly increasing function; free real query points' % ('arbitrary too' if _mx else 'false (what the Interval constructor / init() give)')},
+          timeout_ms={'quick': 100000, 'thorough': 600000}, validate={'quick': 120, 'thorough': 200},   # most random streams fall inside the practical interval and are rejected by the assume
+          what='AnamHermite::' + _what + ' (with Interval::isOutsideBelow/isOutsideAbove, isEqual, FFFF)',
+          out='the bisection inverse inside the practical interval (up to 10^6 iterations) and therefore monotonicity of rawToTransformValue across the practical bounds; fitting of the bounds (_defineBounds); absent (TEST) bounds; practical and absolute bounds closer than the isEqual tolerance 1e-10; rounding of the linear interpolations',
+          assumptions=['real-arithmetic reading', 'pz.min = H(py.min), pz.max = H(py.max): the practical bounds are points of the expansion (what _defineBounds stores)',
+                       'H strictly increasing (uninterpreted otherwise)', 'bounds ordered as stated'],
+          stubs=['hermiteCondExpElement(y, 0, psi) -> H(y) = sinh(y): uninterpreted + strict monotonicity on the terms present (symex libm_axioms); libm sinh in native builds',
+                 'AnamHermite object in raw storage with the class vtable: _flagBound, _rCoef = 1, _psiHn (2 coefficients, unused), the four Interval members (_vmin, _vmax, inclusion flags) initialised by the harness'])
+
+# ---- C18.d PCA variables <-> factors
+_PCATUS = ['src/Stats/PCA.cpp', 'src/Matrix/MatrixSquareGeneral.cpp', 'src/Matrix/AMatrixSquare.cpp', 'src/Matrix/MatrixRectangular.cpp',
+           'src/Matrix/AMatrixDense.cpp', 'src/Matrix/AMatrix.cpp', 'src/Basic/VectorHelper.cpp', 'src/Basic/AStringable.cpp', 'src/Basic/Utilities.cpp']
+K('C18.d.rt', property='C18', engine='symex', harness='C18/pca.cpp', entry='k_roundtrip', tus=_PCATUS,
+  defines={'all': {'VF_NVAR': 2, 'VF_NECH': 2}},
+  bounds={'quick': 'nvar = 2, 2 samples each active or not (arbitrary isoFlag); Z2F an arbitrary invertible real 2x2 matrix, F2Z its inverse (Z2F.F2Z = F2Z.Z2F = I); arbitrary real data, means, prior content of the target cells; sigma > 0'},
+  timeout_ms={'quick': 100000, 'thorough': 600000}, validate={'quick': 30, 'thorough': 60},
+  what='PCA::_pcaZ2F then PCA::_pcaF2Z (with _loadData, _center, _uncenter, AMatrix::prodMatVec(transpose=true) on really constructed MatrixSquareGeneral): factors f_j = sum_i Z2F(i,j)(z_i - mean_i); F2Z(Z2F(z)) == z incl. centring for every active sample; inactive samples not written; Db cells addressed in range',
+  out='the eigen step and _pcaFunctions/_mafFunctions (that the stored pair is an inverse pair); unit variance / decorrelation of the factors; dbZ2F/dbF2Z column management (C19); nvar > 2; rounding of the products',
+  assumptions=['real-arithmetic reading', 'F2Z is the inverse of Z2F (2x2: stated through the adjugate, det != 0)', 'sigma > 0 (with sigma <= 0 _uncenter skips the variable altogether while _center still subtracts the mean)'],
+  stubs=['Db::getLocNumber(const ELoc&) const -> 2; Db::getSampleNumber(bool) const -> 2; Db::getZVariable(iech, item) const -> current source table; Db::setArray(iech, iuid, v) -> current target table at column iuid - iptr, writes counted; out-of-range accesses counted and asserted absent',
+         'PCA object in raw storage: only _Z2F, _F2Z constructed (MatrixSquareGeneral(2)) and filled through setValue', 'messerr -> empty'])
+K('C18.d.center', property='C18', engine='symex', harness='C18/pca.cpp', entry='k_center', tus=_PCATUS,
+  defines={'all': {'VF_NVAR': 2, 'VF_NECH': 2}},
+  bounds={'quick': 'nvar = 2; arbitrary real data and means, sigma > 0, both flags arbitrary'},
+  timeout_ms={'quick': 60000, 'thorough': 600000}, validate={'quick': 30, 'thorough': 60},
+  what='PCA::_center / PCA::_uncenter: _center == (v - mean)/sigma according to flag_center / flag_scale; _uncenter(_center(v)) == v',
+  out='sigma <= 0 (constant variable): _uncenter skips the variable altogether, _center still subtracts the mean; rounding',
+  assumptions=['real-arithmetic reading', 'sigma > 0'], stubs=['messerr -> empty'])
+
+# ---- C18.e normal score, rank part
+for _n, _w, _tiers in ((3, 0, ('quick', 'thorough')), (3, 1, ('quick', 'thorough')), (4, 0, ('quick', 'thorough')), (4, 1, ('thorough',)),
+                       (5, 0, ('thorough',))):
+    K('C18.e.%d%s' % (_n, '.w' if _w else ''), property='C18', engine='symex', harness='C18/nscore.cpp', entry='k_weighted' if _w else 'k_plain',
+      tus=['src/Basic/VectorHelper.cpp', 'src/Basic/Utilities.cpp'], defines={'all': {'VF_N': _n}}, tiers=_tiers,
+      bounds={'quick': '%d values, each defined or TEST (at least one defined), the defined ones pairwise distinct integer-valued |v| <= 1000; %s' % (_n, 'arbitrary positive integer-valued weights <= 1000' if _w else 'no weights')},
       timeout_ms={'quick': 100000, 'thorough': 600000}, validate={'quick': 30, 'thorough': 60},
-      what='AnamHermite::' + _what + ' (with Interval::isOutsideBelow/isOutsideAbove, isEqual, FFFF)',
-      out='the bisection inverse inside the practical interval (up to 10^6 iterations) and therefore monotonicity of rawToTransformValue across the practical bounds; fitting of the bounds (_defineBounds); absent (TEST) bounds; practical and absolute bounds closer than the isEqual tolerance 1e-10; rounding of the linear interpolations',
-      assumptions=['real-arithmetic reading', 'pz.min = H(py.min), pz.max = H(py.max): the practical bounds are points of the expansion (what _defineBounds stores)',
-                   'H strictly increasing (uninterpreted otherwise)', 'bounds ordered as stated'],
-      stubs=['hermiteCondExpElement(y, 0, psi) -> H(y) = sinh(y): uninterpreted + strict monotonicity on the terms present (symex libm_axioms); libm sinh in native builds',
-             'AnamHermite object in raw storage with the class vtable: _flagBound, _rCoef = 1, _psiHn (2 coefficients, unused), the four Interval members (_vmin, _vmax, inclusion flags) initialised by the harness'])
+      what='VH::normalScore (with VH::orderRanks, std::stable_sort executed): undefined entries stay TEST; defined entries get the frequency cumulated weight / (W (n+1)/n) in (0,1); output order-isomorphic to the input on the defined entries',
+      out='the Gaussian inverse c.d.f. itself (law_invcdf_gaussian: any strictly increasing function keeps the order); ties (equal values get different frequencies in stable-sort order, as coded); zero weights; more values than the bound; rounding of the frequency',
+      assumptions=['comparison-only ranking: exact for finite doubles; the frequency is compared in the real-arithmetic reading', 'defined values pairwise distinct', 'weights > 0'],
+      stubs=['law_invcdf_gaussian(p) -> p (identity: strictly increasing; outputs are the frequencies)',
+             'throw_exp -> throws an int; operator new(size_t, nothrow) -> nullptr (std::stable_sort runs its buffer-less path, as in C11.e); messerr -> empty'])
